@@ -13,11 +13,11 @@ for f in sorted(os.listdir(d)):
         continue
     src = open(os.path.join(d, f)).read()
     items = []
-    for m in re.finditer(r"(?:/--(.*?)-/\s*)?^theorem\s+([A-Za-z_][\w.']*)", src, flags=re.S | re.M):
-        doc, name = m.group(1), m.group(2)
-        # the doc comment must directly precede the theorem
-        if doc is not None and re.search(r"\n(theorem|def|example|instance|structure|inductive)\s", doc):
-            doc = None
+    docs = {m.group(2): m.group(1) for m in re.finditer(
+        r"/--((?:(?!-/).)*)-/\s*(?:@\[[^\]]*\]\s*)?theorem\s+([A-Za-z_][\w.']*)", src, flags=re.S)}
+    for m in re.finditer(r"^theorem\s+([A-Za-z_][\w.']*)", re.sub(r"/-.*?-/", lambda x: "\n" * x.group(0).count("\n"), src, flags=re.S), flags=re.M):
+        name = m.group(1)
+        doc = docs.get(name)
         first = ""
         if doc:
             t = re.sub(r"\s+", " ", doc).strip()
